@@ -654,6 +654,10 @@ class NpyArray:
 
     def __setitem__(self, sl, value):
         """Set data at slice `sl` to `value`."""
+        # Rows appended since the last flush become part of the file before an earlier row
+        # changes: the map writes through to the file at once, the header does not.
+        if self._header_bytes_to_write:
+            self.flush()
         self.memmap[sl] = value
 
     def __len__(self):
